@@ -2,6 +2,7 @@
 package c02
 
 import (
+	"bytes"
 	"context"
 	"fmt"
 	"io"
@@ -25,6 +26,7 @@ type Caller struct {
 	ID      uint16 `json:"id"`
 	Pad     int    `json:"pad"`
 	Junk    bool   `json:"junk"` // datagram only: a packet shorter than a dns header arrives right before the reply
+	Bare    bool   `json:"bare"` // datagram only: the reply is a bare 12-byte header (REFUSED, no question section)
 }
 
 type Case struct {
@@ -55,6 +57,7 @@ func genCase(t *rapid.T) Case {
 			ID:      uint16(rapid.IntRange(0, 65535).Draw(t, "id")),
 			Pad:     rapid.SampledFrom([]int{0, 0, 300, 3000}).Draw(t, "pad"),
 			Junk:    c.Datagram && rapid.IntRange(0, 3).Draw(t, "junk") == 0,
+			Bare:    c.Datagram && rapid.IntRange(0, 5).Draw(t, "bare") == 0,
 		})
 	}
 	follows := []string{"none", "none", "eof", "eof", "readerr"}
@@ -88,9 +91,9 @@ func runCase(c Case, ctx *hx.Ctx) *hx.Failure {
 	}
 
 	var mu sync.Mutex
-	firstToken := map[int]string{}  // caller -> token of the first reply the peer produced for it
-	written := map[int]int{}        // caller -> times its query was seen on the wire (all connections)
-	pending := map[int][]byte{}     // afterwrite replies waiting to be delivered: caller -> framed reply
+	firstToken := map[int]string{} // caller -> token of the first reply the peer produced for it
+	written := map[int]int{}       // caller -> times its query was seen on the wire (all connections)
+	pending := map[int][]byte{}    // afterwrite replies waiting to be delivered: caller -> framed reply
 	pendingConn := map[int]*fakenet.Conn{}
 	replied := 0
 	warm := c.Reused // the first query on connection 0 is the warm-up
@@ -146,6 +149,9 @@ func runCase(c Case, ctx *hx.Ctx) *hx.Failure {
 			r, tok, err := book.Reply(cn, q, c.Callers[i].Pad)
 			if err != nil {
 				return
+			}
+			if c.Callers[i].Bare {
+				r = bareReply(q)
 			}
 			mu.Lock()
 			firstToken[i] = tok
@@ -287,6 +293,17 @@ func runCase(c Case, ctx *hx.Ctx) *hx.Failure {
 		if r.err != nil {
 			return hx.Failf("C02/error-despite-reply", "engine=%s datagram=%v reused=%v follow=%s call %d (arrival %s): the peer's reply was delivered, but the exchange failed with: %v", c.Engine, c.Datagram, c.Reused, c.Follow, i, c.Callers[i].Arrival, r.err)
 		}
+		if c.Callers[i].Bare {
+			want := bareReply(peer.Query(c.Callers[i].ID, qnames[i], 16))
+			if !bytes.Equal(*r.resp, want) {
+				return hx.Failf("C02/wrong-reply", "call %d: the peer sent a bare header reply (REFUSED); the call returned % x, expected % x", i, *r.resp, want)
+			}
+			if w != 1 {
+				return hx.Failf("C02/needed-retransmission", "engine=%s datagram=%v call %d: query seen %d times on the wire although the first (header-only) reply was delivered", c.Engine, c.Datagram, i, w)
+			}
+			ctx.Class("header-only-reply")
+			continue
+		}
 		if why := book.Judge(*r.resp, c.Callers[i].ID, qnames[i]); why != "" {
 			return hx.Failf("C02/wrong-reply", "call %d: %s", i, why)
 		}
@@ -328,6 +345,15 @@ func callOne(ctx context.Context, eng tx.Engine, q []byte, res *result, mu *sync
 	mu.Lock()
 	res.resp, res.err, res.done = r, err, true
 	mu.Unlock()
+}
+
+// bareReply is the 12-byte header-only answer to q: same ID, QR set, RD copied, rcode REFUSED, all counts zero.
+func bareReply(q []byte) []byte {
+	r := make([]byte, 12)
+	copy(r[:2], q[:2])
+	r[2] = 0x80 | (q[2] & 0x01)
+	r[3] = 5
+	return r
 }
 
 func tokenOf(resp []byte) string { return peer.Token(resp) }
